@@ -1,2 +1,83 @@
-(* C12 *)
-From Grex Require Import Base.Str.
+(* C12 — the command-line tool: flags map to the library settings as documented, the clap
+   argument table is consistent, and the input file is split into test cases line by line.
+
+   cli / cli_ops / clap_* are GENERATED from src/main.rs (gen/SrcCli.v); spec_cfg a is the
+   documented configuration for the parsed arguments a (Model/History.v); run_setters applies
+   the setter calls in order, stopping at the first panic. *)
+From Grex Require Import Base.Str Model.Config Model.Builder Model.Print Model.Pipeline
+  Model.History.
+From Grex Require Import Proofs.Wrappers.
+From GrexGen Require Import SrcConsts SrcBuilder SrcCli.
+
+(* positive thresholds: the setter calls made by main() produce the documented settings *)
+Theorem C12_flags : forall a,
+  cli_minimum_repetitions a <> 0%N -> cli_minimum_substring_length a <> 0%N ->
+  run_setters (cli_ops a) (inl src_default_cfg) = inl (spec_cfg a).
+Proof. exact Wrappers.C12_flags. Qed.
+
+(* a zero threshold would panic in the library with the documented message ... *)
+Theorem C12_zero_threshold : forall a,
+  (cli_minimum_repetitions a = 0%N ->
+   run_setters (cli_ops a) (inl src_default_cfg) = inr msg_MINIMUM_REPETITIONS_MESSAGE)
+  /\ (cli_minimum_repetitions a <> 0%N -> cli_minimum_substring_length a = 0%N ->
+      run_setters (cli_ops a) (inl src_default_cfg) = inr msg_MINIMUM_SUBSTRING_LENGTH_MESSAGE).
+Proof.
+  intro a. exact (conj (Wrappers.C12_zero_threshold a) (Wrappers.C12_zero_threshold_len a)).
+Qed.
+
+(* ... but clap's value parser rejects zero first; further facts of the argument table *)
+Theorem C12_clap_facts :
+  clap_surrogates_requires_escape = true /\
+  clap_input_conflicts_with_file = true /\
+  cli_rejects_empty_input = true /\
+  clap_threshold_defaults = (1%N, 1%N) /\ clap_thresholds_reject_zero = true.
+Proof. exact Wrappers.C12_clap_facts. Qed.
+
+Theorem C12_names_distinct : NoDup clap_long_names /\ NoDup clap_short_flags.
+Proof. exact Wrappers.C12_names_distinct. Qed.
+
+(* no flags: the library default *)
+Theorem C12_no_flags :
+  spec_cfg (mkCli false false false false false false false false false false false false
+                  false false false false 1 1) = src_default_cfg.
+Proof. exact Wrappers.C12_no_flags. Qed.
+
+(* --convert-to-surrogates is only accepted together with --escape *)
+Theorem C12_surrogates : forall a,
+  (cli_is_astral_code_point_converted_to_surrogate a = true -> cli_is_non_ascii_char_escaped a = true) ->
+  f_sur (spec_cfg a) = cli_is_astral_code_point_converted_to_surrogate a.
+Proof. exact Wrappers.C12_surrogates. Qed.
+
+(* reading the test cases from a file (str::lines): a file made of the test cases ws joined by
+   LF (resp. CRLF), with or without a final line break, is split into exactly ws — iff no test
+   case ends in CR (LF files) and the last test case is not empty when the final line break
+   is missing *)
+Theorem C12_lines_lf : forall (ws : list str) (final_nl : bool),
+  Forall (fun w => ~ In 10%N w) ws ->
+  (lines (join [10%N] ws ++ (if final_nl && negb (is_nil ws) then [10%N] else [])) = ws
+   <->
+   Forall (fun w => last_cp w <> Some 13%N) (if final_nl then ws else removelast ws)
+   /\ (final_nl = false -> ws <> [] -> last ws [] <> [])).
+Proof. exact Wrappers.C12_lines_lf_iff. Qed.
+
+Theorem C12_lines_crlf : forall (ws : list str) (final_nl : bool),
+  Forall (fun w => ~ In 10%N w) ws ->
+  (lines (join [13%N; 10%N] ws ++ (if final_nl && negb (is_nil ws) then [13%N; 10%N] else [])) = ws
+   <->
+   (final_nl = false -> ws <> [] -> last ws [] <> [])).
+Proof. exact Wrappers.C12_lines_crlf_iff. Qed.
+
+(* a test case read from a file never contains LF *)
+Theorem C12_lines_no_nl : forall (ws : list str) s,
+  lines s = ws -> Forall (fun w => ~ In 10%N w) ws.
+Proof. exact Wrappers.C12_lines_needs_no_nl. Qed.
+
+Print Assumptions C12_flags.
+Print Assumptions C12_zero_threshold.
+Print Assumptions C12_clap_facts.
+Print Assumptions C12_names_distinct.
+Print Assumptions C12_no_flags.
+Print Assumptions C12_surrogates.
+Print Assumptions C12_lines_lf.
+Print Assumptions C12_lines_crlf.
+Print Assumptions C12_lines_no_nl.
